@@ -5,6 +5,7 @@ CONSTANTS
   CatStride = 5
   PairStride = 20
   SameStride = 10
+  AttrStride = 40
   ShapeFrom = "named dims"
 CONSTRAINT Export
 INVARIANT ImplRefinesReq
